@@ -13,6 +13,15 @@ TEXT = {
          "set construction order/duplicate-insensitive, contains/containsAll/containsAny/isEmpty, in/has/getAttr/is, like = declarative matcher for all patterns "
          "and strings); the model is the definition: any disagreement with Evaluator::interpret on the generated stream is a failing input.",
          "proof over a hand-written model; correspondence sampled through 6 routes (text, AST, EST, eval_expression, when, unless); error classes only"),
+ "C04": ("Lean theorems over the mirror of the entity store's hierarchy maintenance (from/add/upsert/remove_entities with the three TCComputation modes, "
+         "update_entity_map/deep_eq, the touched-set bookkeeping and stale-edge stripping, repair_tc + add_ancestors DFS, enforce_tc_and_dag): enforce_exact, "
+         "repair_tc exact on acyclic graphs and rejecting only real cycles, the store invariant (ancestors = Reach+ over direct-parent links, acyclic, "
+         "parents/indirect disjoint) preserved by the operations, history induction, `in` = reflexive reachability; the model+spec define reachability: any "
+         "disagreement with Entities::{from,add,upsert,remove}_entities on generated histories (random + exhaustive small scope) is a failing input.",
+         "proof over a hand-written model; remove_entities is proved at full strength (any uid list), add_entities for any batch and upsert_entities for "
+         "one-entity batches on acyclic results plus soundness of rejection; cyclic_tc's SCC internals are modelled by contract; completeness of cycle "
+         "detection, multi-entity upsert batches and the compute_tc contract are stated in full (defs ...Full / named residual hypotheses of "
+         "history_inv_partial) but only checked by the correspondence; correspondence is sampled + exhaustive on <=3 uids"),
  "C07": ("Lean theorems over mirrors of the decimal/ip/datetime/duration parsers and operations (written-out recognisers + checked arithmetic); the model is the "
          "definition of 'exact': any disagreement with the real extension functions on generated strings/values is a failing input.",
          "proof over a hand-written model; std::net / chrono / regex are inside the implementation under check and are re-defined in the model"),
